@@ -15,12 +15,14 @@ def run(ctx):
         c03.gen(ctx, binp, "names", 5, 1, [0])
         c03.gen(ctx, binp, "texts", 5, 2, [0, 1])
         c03.gen(ctx, binp, "pairs", 3, 2, [0, 1])
+        c03.gen(ctx, binp, "octpairs", 0, 1, [0])
         c03.tv(ctx, binp, "c19", 400, 4)
     else:
         ctx.tlc("MC_Names", timeout=1800)
         c03.gen(ctx, binp, "names", 7, 16, range(16))
         c03.gen(ctx, binp, "texts", 7, 16, range(16))
         c03.gen(ctx, binp, "pairs", 4, 16, range(16))
+        c03.gen(ctx, binp, "octpairs", 0, 1, [0])
         c03.tv(ctx, binp, "c19", 3000, 16)
     ctx.assumptions += ["names are in the library's presentation form (what UnpackDomainName / Present produce), fully qualified or with the final dot removed"]
     return ctx.finish(rule="vectors: every name over octets {a A 0 . \\ 0x00 0xc8} with sum(len+1) <= N every valid TEXT over symbols {a A 0 . \\ \\. \\200} up to N symbols in any escape spelling, and every ordered pair up to the "
